@@ -100,7 +100,7 @@ def cases(tier, rng):
 def nontrivial(case, out):
     return 'mkEv 1 ' in out or 'mkEv 2 ' in out
 
-STAGES = [dict(name='fanout', mode='app', coq='Check.C14c', cases=cases, nontrivial=nontrivial, shard=25,
+STAGES = [dict(name='fanout', mode='app', coq='Check.C14c', profile=('Proofs.JudgeProfiles', 'JudgeProfiles.prof_C14', 'C14_app_judgement_sound_all (C14_app_judgement_sound / _transfer for non-consuming profiles)'), cases=cases, nontrivial=nontrivial, shard=25,
                exhaustive={'thorough': False, 'quick': True},
                rule='an exclusive and a shared context type side by side, three entities; exclusive instances are driven by entity-specific scripted states, the shared one by one script; '
                     'every single join/leave (insert/remove x entity x type) after frames 1, 2, 4 (quick; ordered pairs, sampled to 1500, in thorough) and random histories of 0-6 ops over 6-16 frames; exclusive instances tied to different gamepads (or unrestricted) next to a shared context, three gamepads with independent button/axis activity, a rebuild in the middle; the same with consuming actions on every instance and several gamepads active at once; holders that are parents / children of each other in the entity hierarchy (a parent holding nothing, the same shared context, or its own exclusive instance); '
